@@ -141,6 +141,7 @@ type frame struct {
 	f      *refmodel.Frame
 	w      []byte
 	obs0   string
+	mask   map[string]bool // members that are not a function of the parsed bytes
 	opIdx  int
 	pad    []byte
 	padTag string
@@ -289,7 +290,18 @@ func execute(s *engine.Script, o *engine.Outcome) {
 			o.Violate("C03/extent/"+ad.Name+"/consumed-less-than-extent-on-exact-input", "op %d %s: given exactly the %d bytes of the structure the parser left %d bytes over", i, ad.Name, len(fr.w), len(res.Rem))
 			continue
 		}
-		fr.obs0 = obs.Observe(res.Val, &opt)
+		// "the parsed value" is what is a function of the parsed bytes: members
+		// that differ between two parses of the very same bytes (a parse counter,
+		// interning statistics, a clock) are left out of every comparison
+		first := obs.Members(res.Val, &opt)
+		var resB adapters.Result
+		if !o.Guard("parse exact again "+ad.Name, func() { resB = ad.Parse(cp(fr.w), fr.arg) }) && resB.OK {
+			fr.mask = obs.Unstable(first, obs.Members(resB.Val, &opt))
+			for _, n := range engine.SortedKeys(fr.mask) {
+				o.Probe("member_not_a_function_of_the_input:" + ad.Name + "." + n)
+			}
+		}
+		fr.obs0 = obs.Render(first, fr.mask)
 		// the input is what lies below len(): bytes in the slice's spare capacity
 		// (here: a plausible continuation) are not part of it
 		{
@@ -304,7 +316,7 @@ func execute(s *engine.Script, o *engine.Outcome) {
 				case len(r3.Rem) != 0:
 					o.Violate("C03/depends-on-spare-capacity/"+ad.Name+"/remainder", "op %d %s: remainder of %d bytes from an input of exactly the structure's %d bytes (the slice had spare capacity)", i, ad.Name, len(r3.Rem), len(fr.w))
 				default:
-					if got := obs.Observe(r3.Val, &opt); got != fr.obs0 {
+					if got := obs.Render(obs.Members(r3.Val, &opt), fr.mask); got != fr.obs0 {
 						o.Violate("C03/depends-on-spare-capacity/"+ad.Name+"/value", "op %d %s: value differs when the input slice has spare capacity: %s", i, ad.Name, firstDiff(fr.obs0, got))
 					}
 				}
@@ -337,7 +349,7 @@ func judge(o *engine.Outcome, fr *frame, in []byte, res adapters.Result, opt *ob
 		o.Violate("C03/extent/"+fr.ad.Name+"/consumed-"+rel+"-than-extent/"+where, "op %d %s: structure extent is %d bytes, parser consumed %d of a %d-byte buffer (%s)", fr.opIdx, fr.ad.Name, ext, consumed, len(in), where)
 		return
 	}
-	if got := obs.Observe(res.Val, opt); got != fr.obs0 {
+	if got := obs.Render(obs.Members(res.Val, opt), fr.mask); got != fr.obs0 {
 		o.Violate("C03/trailing-bytes-change-value/"+fr.ad.Name+"/"+where, "op %d %s: value parsed from frame++%d more bytes (%s) differs from value parsed from the frame alone: %s", fr.opIdx, fr.ad.Name, len(in)-ext, where, firstDiff(fr.obs0, got))
 	}
 }
